@@ -213,7 +213,7 @@ class BaseServer:
                 value = value()
             if value is True:
                 cookie += '; ' + attribute
-            else:
+            elif value is not False:
                 cookie += '; ' + attribute + '=' + value
         return cookie
 
